@@ -133,24 +133,12 @@ fn median(mut price_list: Vec<Price>) -> Option<Price> {
     let lower_price = price_list
         .get(lower_index)
         .expect("`lower_index` is a valid index");
-    // Avoid overflow by halving both values first.
-    let half_high = higher_price
-        .checked_div(2)
-        .expect("can't fail as divisor is not zero");
-    let half_low = lower_price
-        .checked_div(2)
-        .expect("can't fail as divisor is not zero");
-    let sum = half_high
-        .checked_add(half_low)
-        .expect("can't fail as both operands are <= MAX/2");
-    // If `higher_price` and `lower_price` are both odd, we rounded down twice when halving them,
-    // so add 1 to the sum.
-    let median = if higher_price.get() % 2 == 1 && lower_price.get() % 2 == 1 {
-        sum.checked_add(Price::new(1))
-            .expect("can't fail as we rounded down twice while halving the prices")
-    } else {
-        sum
-    };
+    // The floor of the average of the two middle values, computed without overflow: the bits the
+    // two values share, plus half of the bits in which they differ. Unlike halving both values and
+    // correcting for two odd operands, this is also exact for negative prices, so the result
+    // always lies between `lower_price` and `higher_price`.
+    let (high, low) = (higher_price.get(), lower_price.get());
+    let median = Price::new((high & low).wrapping_add((high ^ low) >> 1));
     Some(median)
 }
 
